@@ -278,6 +278,28 @@ def check_profile(case):
     return info
 
 
+# ------------------------------------------------------------------ default settings on realistic series
+
+
+def default_cells(tier):
+    """The detector with its DEFAULT hyper-parameters (optionally one of them changed) on realistic series of 100-400 samples
+    (strategies.data.realistic_series; deterministic function of the stored seed)."""
+    base = {"change_score": None, "bandwidth": 30, "threshold_scale": 2.0, "level": 0.01, "min_detection_interval": 1}
+    variants = ({}, {"threshold_scale": None}, {"bandwidth": 10}, {"min_detection_interval": 5}, {"threshold_scale": 1.0},
+                {"change_score": {"cls": "GaussianVarCost"}})
+    for seed in range(8 if tier == "quick" else 24):
+        for n in ((100, 260) if tier == "quick" else (61, 100, 180, 260, 400)):
+            for v in variants[: 2 if tier == "quick" else 6]:
+                yield {"seed": 23000 + seed, "n": n + seed, "p": 1 + seed % 2, "params": dict(base, **v)}
+
+
+def check_default(case):
+    X, kind = D.realistic_series(case["seed"], case["n"], case["p"])
+    info = check({"params": case["params"], "X": X, "as_int64": False, "n_train": None, "history": None})
+    info["classes"] = list(info["classes"]) + [f"data={kind}"]
+    return info
+
+
 # ------------------------------------------------------------------ very long series
 
 
@@ -324,6 +346,11 @@ FACETS = [
                 "peak is the first, last or an inner position (or two equal maxima), separated by 1-3 sub-threshold positions; bandwidth 4..16, "
                 "min_detection_interval 1..7, threshold placed between the integer levels; peak-of-run model; non-trivial = >= 1 changepoint"),
           n_quick=400, n_thorough=6000, shards_quick=8, shards_thorough=16),
+    Facet(name="default_settings", kind="enumerate", enumerate=default_cells, check=check_default, exhaustive=True, time_limit=300,
+          rule=("MovingWindow with its default hyper-parameters (CUSUM, bandwidth 30, scale 2, level 0.01, min_detection_interval 1; variants: tuned threshold, "
+                "bandwidth 10, min_detection_interval 5, scale 1, GaussianVar cost) on realistic series of 61-400 samples (seeded); same score and "
+                "peak-of-run models; 32 cells (thorough: 720), non-trivial = >= 1 changepoint"),
+          shards_quick=16, shards_thorough=16, max_samples=1),
     Facet(name="long_series", kind="enumerate", enumerate=long_cells, check=check_long, exhaustive=True, time_limit=240,
           rule=("series with n p between 2^16 and 2^17 (n 16431..131115, p 1..5): seeded unit noise with level shifts at and next to "
                 "multiples of 2^16 / p; every score compared with the definition, changepoints with the peak model; 5 cells (thorough: 20), "
